@@ -1,6 +1,7 @@
 package redis
 
 import (
+	"bytes"
 	"sync"
 	"time"
 
@@ -165,6 +166,11 @@ func (q *Queue) Add(elem *queue.Elem) (err error) {
 				// (it is not, while the inflight entries await redelivery after Init)
 				if dropIdx < q.current {
 					q.current--
+				}
+				// the dropped entry is gone from the list: Remove must not find it in the read cache
+				// (LREM of its bytes would remove nothing, yet the counters and the cursor would move)
+				if id := dropElem.ID(); bytes.Equal(q.readCache[id], dropBytes) {
+					delete(q.readCache, id)
 				}
 			}
 			if dropBytes == nil {
